@@ -186,7 +186,7 @@ def merge(results):
     agg = dict(paths=0, queries=0, sat=0, unsat=0, unknown=0, solver_time_s=0.0, forks=0, vacuous=0, gaps=0,
                validated=0, n_mismatch=0, frontier_left=0, chunks=len(results), chunks_skipped=0,
                chunks_cut=0, errors=[], confirmed={}, unconfirmed=[], mismatches=[], samples=[], gap_texts={},
-               counters={}, notes={})
+               counters={}, notes={}, functions=set())
     for r in results:
         if r.get("skipped"):
             agg["chunks_skipped"] += 1
@@ -195,6 +195,7 @@ def merge(results):
             agg["errors"].append(dict(chunk=r["chunk"], error=r["error"], tb=r.get("tb")))
             continue
         st = r.get("stats", {})
+        agg["functions"].update(st.get("functions", []))
         for k in ("paths", "queries", "sat", "unsat", "unknown", "forks", "vacuous", "gaps", "frontier_left"):
             agg[k] += st.get(k, 0)
         agg["solver_time_s"] += st.get("solver_time_s", 0.0)
@@ -279,7 +280,8 @@ def report(prop, hname, tier, seed, agg, t0, bounds, extra_cov=None, assumptions
         solver=dict(name="z3", version=_z3v(), queries=agg["queries"], sat=agg["sat"], unsat=agg["unsat"],
                     unknown=agg["unknown"], time_s=round(agg["solver_time_s"], 2)),
         vacuous_paths=agg["vacuous"], engine_gaps=agg["gap_texts"], counters=agg["counters"],
-        bounds=bounds, functions_encoded=functions or [],
+        bounds=bounds, functions_encoded=list(functions or []),
+        functions_entered_on_probed_paths=sorted(agg.get("functions", [])),
         known_findings_seen=seen_known, stale_findings=stale,
         new_violations=[dict(fingerprint=c["fingerprint"], what=c["what"]) for c in new],
         inconclusive=inconclusive, notes=agg["notes"],
